@@ -806,7 +806,9 @@ static int mode_order(int cases, int base_exp)
                 const int cg = strat == 1 ? c % 2 : 1, cc = strat == 1 ? (c / 2) % 2 : 1;
                 o.set("cacheDensityProfileCoefficients", cc); o.set("cacheDomainGeometry", cg); o.set("maxOpenMPThreads", 4); o.set("extrapolation", mode);
                 o.set("FMG", fmg); o.set("FMG_iterations", 2); o.set("FMG_cycle", 0); o.set("multigridCycle", 0); o.set("preSmoothingSteps", 1); o.set("postSmoothingSteps", 1); o.set("maxIterations", 150);
-                o.set("absoluteTolerance", 1e-13); o.set("relativeTolerance", 1e-12); o.set("residualNormType", 0); o.set("maxLevels", -1);
+                // the discretisation error does not depend on the depth of the hierarchy either: every fourth case caps it at two levels
+                // (the coarse-solve branch of the cycles is then taken on level 1)
+                o.set("absoluteTolerance", 1e-13); o.set("relativeTolerance", 1e-12); o.set("residualNormType", 0); o.set("maxLevels", c % 4 == 3 ? 2 : -1);
                 // the discretisation error does not depend on the cycle: a W(2,2) cycle keeps the annulus-like cases away from the
                 // diverging V(1,1) configuration class of known finding F10
                 if (R0 > 1e-3) { o.set("multigridCycle", 1); o.set("preSmoothingSteps", 2); o.set("postSmoothingSteps", 2); }
@@ -1095,6 +1097,15 @@ static int mode_levelops(const std::string& what, int cases)
         if (v.levels() != L) { printf("SKIP levels=%d wanted=%d\n", v.levels(), L); continue; }
         const char* strat = o.kv["stencilDistributionMethod"] == "1" ? "give" : "take";
         const int threads = atoi(o.kv["maxOpenMPThreads"].c_str());
+        std::unique_ptr<GMGPolar> twin;
+        if (what == "residual") {
+            Opts o2 = o;
+            o2.set("stencilDistributionMethod", o.kv["stencilDistributionMethod"] == "1" ? 0 : 1);
+            o2.set("cacheDensityProfileCoefficients", 1); o2.set("cacheDomainGeometry", 1);
+            twin = std::make_unique<GMGPolar>();
+            o2.apply(*twin);
+            twin->setup();
+        }
         for (int l = 0; l < L; l++) {
             Level& lv = v.level(l);
             const PolarGrid& gr = lv.grid();
@@ -1111,6 +1122,16 @@ static int mode_levelops(const std::string& what, int cases)
                 lv.computeResidual(out, fv, xv);
                 printf("RES lvl=%d strat=%s cache=%s%s threads=%d x=%s f=%s out=%s\n", l, strat, o.kv["cacheDensityProfileCoefficients"].c_str(), o.kv["cacheDomainGeometry"].c_str(), threads,
                        hexvec(x).c_str(), hexvec(f).c_str(), hexvec(rowmajor(out)).c_str());
+                // the same inputs through a twin solver object that differs in the strategy only (take needs both caches): the two
+                // must agree (oracle on the implementation, no model involved)
+                if (twin) {
+                    GMGPolarVerif tv(*twin);
+                    if (tv.levels() == L) {
+                        Vector<double> out2(n);
+                        tv.level(l).computeResidual(out2, fv, xv);
+                        printf("RES lvl=%d strat=%s cache=11 threads=%d x=%s f=%s out=%s\n", l, strat[0] == 'g' ? "take" : "give", threads, hexvec(x).c_str(), hexvec(f).c_str(), hexvec(rowmajor(out2)).c_str());
+                    }
+                }
             }
             else if (what == "smooth" && l + 1 < L) {
                 // level 0 holds the smoother(s) the extrapolation mode asks for, intermediate levels the standard smoother
@@ -1123,6 +1144,18 @@ static int mode_levelops(const std::string& what, int cases)
                     fill_garbage(rng, tmp);
                     if (ex) lv.extrapolatedSmoothing(y, fv, tmp); else lv.smoothing(y, fv, tmp);
                     printf("SM ex=%d strat=%s threads=%d x=%s f=%s out=%s\n", ex, strat, threads, hexvec(x).c_str(), hexvec(f).c_str(), hexvec(rowmajor(y)).c_str());
+                    // the way a cycle uses it: the SAME smoother object and the SAME work vector again, after the iterate was changed in
+                    // between (coarse-grid correction), once with the work vector as the previous sweep left it, once overwritten
+                    for (int again = 0; again < 2; again++) {
+                        std::vector<double> x2(n);
+                        for (auto& q : x2) q = rng.uniform(-1, 1);
+                        Vector<double> y2(n);
+                        for (int i = 0; i < gr.nr(); i++) for (int j = 0; j < gr.ntheta(); j++) y2[gr.index(i, j)] = x2[(size_t)i * gr.ntheta() + j];
+                        if (again == 1) fill_garbage(rng, tmp);
+                        emit_level_of("LV", l, v.geo(), v.coef(), gr, g.DirBC_Interior(), none);
+                        if (ex) lv.extrapolatedSmoothing(y2, fv, tmp); else lv.smoothing(y2, fv, tmp);
+                        printf("SM ex=%d strat=%s threads=%d x=%s f=%s out=%s\n", ex, strat, threads, hexvec(x2).c_str(), hexvec(f).c_str(), hexvec(rowmajor(y2)).c_str());
+                    }
                 }
             }
             else if (what == "direct" && l + 1 == L) {
